@@ -62,6 +62,8 @@ def gen_cases(rng, tier):
             ops.append(op)
             if op.name in ("New", "Dup", "Replace", "DcReplace"):
                 held.add(op.args[0])
+            if op.name == "AsObj":
+                held.add(op.args[1])
             if op.name == "Drop":
                 held.discard(op.args[0])
             if held and rng.random() < 0.33:
@@ -116,7 +118,7 @@ def search(rng, tier):
         case = {"opts": {"universe": universe_to_json(u), "rules": c03.rules_to_json(rules)}, "digest_size": rng.choice([1, 8])}
         out = impl(t, case)
         for s in out.args[0]:
-            if s.args[5] != Con("Frame", True, True):
+            if s.args[5] != Con("Frame", True, True, True):
                 return {"input": repr(t)[:4000], **case, "what": "an existing node changed"}
         if any(isinstance(r, tuple) and any(x[1] != Con("T") or x[2] != Con("T") for x in r) for r in out.args[1]):
             return {"input": repr(t)[:4000], **case, "what": "setattr/delattr did not raise"}
